@@ -359,7 +359,24 @@ func c06Readable(p m.Packet) m.Packet {
 }
 
 func genC06Frame(t *rapid.T) ([]byte, bool) {
-	switch rapid.IntRange(0, 10).Draw(t, "frame.kind") {
+	switch rapid.IntRange(0, 12).Draw(t, "frame.kind") {
+	case 11, 12:
+		// an RFC-valid encoding the library's own encoder would not produce (padded APP with whole
+		// padding words, another TWCC chunking, unnormalised REMB, reserved bits set, unknown XR
+		// blocks, BYE reason forms): valid, so it must be accepted, and its canonical re-encoding
+		// is often shorter or different - a decoder that measures the frame by anything but the
+		// header's length field loses its place in the datagram
+		for try := 0; try < 8; try++ {
+			c := genC04Case(t, false)
+			if c.Inflate > 0 || c.PadWords > 0 || c.Variant == "big-frame" {
+				continue // invalid on purpose / listed padding findings / too large for this check
+			}
+			c.P = c06Readable(c.P)
+			if b, err := c.encode(gen.PionDialect); err == nil && len(b) <= 4096 {
+				return b, true
+			}
+		}
+		return []byte{0x80, 201, 0, 1, 0, 0, 0, 1}, true
 	case 10:
 		// a valid encoding cut short by one or two words, length field fixed up: still well
 		// framed, but its last element no longer fits - a decoder must not look past the frame
